@@ -13,9 +13,14 @@
        number of reads of any sizes, including 1-byte reads) and ALL buffer sizes >= need input,
        the streaming reader produces the same token list, terminal event and final position as
        the zero-copy reader;
-     * C07_stream_full (see below). *)
+     * C07_stream_full: for every non-empty buffer smaller than need input the streaming reader
+       returns a proper prefix of the slice reader's tokens followed by BufferFull: never a
+       clean end, never a split or dropped token.  (Together: for every buffer size > 0 exactly
+       one of the two cases applies.  cap = 0 is the model's encoding of the bufferless slice
+       window and is not a streaming configuration.)
+   Hypotheses: bytes are < 256 (wf_bytes), the Read does not fail (no_fail; faults are C20). *)
 From JV Require Import Bytes Tables U64Swar BufWin TextTok TextReader TextRef.
-From JV.proofs Require Import BufWinProofs TextReaderProofs TextFastProofs TextReaderMainProofs.
+From JV.proofs Require Import BufWinProofs TextReaderProofs TextFastProofs TextReaderMainProofs TextReaderFullProofs.
 Open Scope nat_scope.
 
 Theorem C07_fill_buf_preserves : forall input b r,
@@ -94,6 +99,15 @@ Theorem C07_stream_eq_slice : forall input sch capv,
   run_stream capv sch input = run_slice input.
 Proof. exact stream_eq_slice. Qed.
 Print Assumptions C07_stream_eq_slice.
+
+(* ---------- a buffer that is too small ---------- *)
+Theorem C07_stream_full : forall input sch capv,
+  wf_bytes input -> no_fail sch -> 0 < capv < need input ->
+  exists pre suf p,
+    run_stream capv sch input = (map OTok pre ++ [OErr E_BufferFull], p) /\
+    fst (run_slice input) = map OTok pre ++ suf /\ suf <> [].
+Proof. exact stream_full. Qed.
+Print Assumptions C07_stream_full.
 
 (* non-vacuity: an input with an escaped quote inside a quoted scalar, a comment, a parameter
    token and a two-byte operator needs 5 bytes; with one-byte reads and a 5-byte buffer the
